@@ -62,6 +62,9 @@ def gen_c09_stack(rng):
     if "mix" in collators and not mix:
         layers.append({"t": "onehot"})  # the mix collator expects one-hot labels
     container = None if mv else rng.choice([None, None, None, "concat", "interleaved", "concat_shared"])
+    if mv and core.Streams(f"c09-mv/{n}/{len(layers)}/{len(collators)}")("x").random() < 0.5:
+        # training (unseeded) and evaluation (seeded) multi-view datasets built from ONE configs list, served by the same workers
+        container = "interleaved_mv_twin"
     if mix and container in ("concat", "concat_shared"):
         container = "interleaved"
     over = []
@@ -98,7 +101,9 @@ def build_c09(stack, mode, return_ctx):
         if t == "xtw":
             ds = W.XTransformWrapper(ds, C.build(layer["transform"]))
         elif t == "multiview":
-            ds = W.KDMultiViewWrapper(ds, configs=[(c["n"], C.build(c["transform"])) for c in layer["configs"]])
+            mv_configs = [(c["n"], C.build(c["transform"])) for c in layer["configs"]]
+            mv_base = ds
+            ds = W.KDMultiViewWrapper(ds, configs=mv_configs)
         elif t == "mix":
             ds = W.KDMixWrapper(ds, mixup_p=layer["p"], mixup_alpha=layer["alpha"])
         else:
@@ -125,6 +130,11 @@ def build_c09(stack, mode, return_ctx):
         collate = KDComposeCollator(collators=mw.collators, dataset_mode=mode, return_ctx=return_ctx)
     else:
         collate = None
+    if stack["container"] == "interleaved_mv_twin":
+        twin = W.KDMultiViewWrapper(RootDataset("tensor", 3), configs=mv_configs, seed=5)
+        other = W.ModeWrapper(twin, mode=mode, return_ctx=return_ctx)
+        ds2 = _InterleavedConcatDataset([mw, other])
+        return ds2, _InterleavedCollator([collate or default_collate, default_collate])
     if stack["container"] == "interleaved":
         other = W.ModeWrapper(W.XTransformWrapper(RootDataset("tensor", 3), C.build({"t": "leaf", "name": "KDAdditiveUniformNoise"})),
                               mode=mode, return_ctx=return_ctx)
@@ -216,7 +226,8 @@ class Spec(core.PropSpec):
                     hook=ro.random() < 0.93, clobbers=[ro.choice([None, ["np", ro.randint(0, 99)], ["torch", 1], ["py", 2]]) for _ in range(4)],
                     sched_seed=ro.getrandbits(32), amb_main=rw.getrandbits(30), main_hook_rank=ro.choice([None, None, None, 0, 1]),
                     start_method=core.Streams(seed)("preempt").choice(["fork", "fork", "spawn"]),
-                    preempt_rate=core.Streams(seed)("preempt2").choice([0, 0, 0, 0.05, 0.3]))
+                    preempt_rate=core.Streams(seed)("preempt2").choice([0, 0, 0, 0.05, 0.3]),
+                    env_change=core.Streams(seed)("env").choice([None, None, None, {"RANK": 1, "WORLD_SIZE": 4}, {"SLURM_PROCID": 3}, {"LOCAL_RANK": 2, "RANK": 5}]))
 
     def shrink_candidates(self, plan):
         st = plan["stack"]
@@ -247,6 +258,8 @@ class Spec(core.PropSpec):
             yield dict(plan, main_hook_rank=None)
         if plan["stack"].get("hook_fault"):
             yield dict(plan, stack=dict(plan["stack"], hook_fault=None))
+        if plan.get("env_change"):
+            yield dict(plan, env_change=None)
 
     # ---------------------------------------------------------------------------------------------------------
     def execute(self, plan):
@@ -288,7 +301,10 @@ class Spec(core.PropSpec):
             out.ev("rejected", "empty main dataset")
             return out
         batches = [[(b * bs + j) % n_main for j in range(bs)] for b in range(plan["n_batches"] * K)]
-        if stack["container"] == "interleaved":
+        if stack["container"] == "interleaved_mv_twin":
+            for pos_ in range(min(K, len(batches) - 1)):  # one evaluation batch per worker, before its later training batches
+                batches[pos_ + (K if len(batches) > 2 * K else 0)] = [n_main + j % 3 for j in range(bs)]
+        elif stack["container"] == "interleaved":
             batches[-1] = [n_main + j % 3 for j in range(bs)]  # one pass over the second dataset, never mixed with the first
         elif stack["container"] in ("concat", "concat_shared"):
             batches[-1] = [n_main + j % 3 for j in range(bs)]
@@ -305,7 +321,17 @@ class Spec(core.PropSpec):
                 out.ev("rejected", type(e).__name__)
                 return out
         inherited = (isamp.dataset, isamp.collator) if isamp is not None else (ds, collate)
-        forked = {p: (owner, fingerprint(g)) for p, owner, g in walk(inherited)}
+        twin = stack["container"] == "interleaved_mv_twin"
+
+        def walk_(obj):
+            # the members of the SEEDED evaluation twin are re-seeded per sample by design (that is C08's subject): only the members
+            # of the unseeded training dataset and the collators fall under this property
+            for p, owner, g in walk(obj):
+                if twin and ".datasets[1]" in p:
+                    continue
+                yield p, owner, g
+
+        forked = {p: (owner, fingerprint(g)) for p, owner, g in walk_(inherited)}
         out.count("logical:reachable_generators", len(forked))
         sessions = []  # per loader epoch: dict(beta, hook fingerprints per worker, trajectories, delivered hashes)
 
@@ -324,11 +350,11 @@ class Spec(core.PropSpec):
 
                 @staticmethod
                 def post_init_probe(worker):
-                    rec["hook"][worker.wid] = {p: (owner, fingerprint(g)) for p, owner, g in walk((worker.dataset, worker.collate_fn))}
+                    rec["hook"][worker.wid] = {p: (owner, fingerprint(g)) for p, owner, g in walk_((worker.dataset, worker.collate_fn))}
 
                 @staticmethod
                 def post_batch_probe(worker):
-                    rec["traj"].setdefault(worker.wid, []).append({p: fingerprint(g) for p, owner, g in walk((worker.dataset, worker.collate_fn))})
+                    rec["traj"].setdefault(worker.wid, []).append({p: fingerprint(g) for p, owner, g in walk_((worker.dataset, worker.collate_fn))})
 
             if stack.get("via_interleaved_sampler"):
                 # the library builds the loader itself (InterleavedSampler.get_data_loader); the base seed then comes from the main
@@ -364,7 +390,21 @@ class Spec(core.PropSpec):
         try:
             for i, beta in enumerate(plan["betas"]):
                 run_epoch(beta, plan["clobbers"][i])
-            again = run_epoch(plan["betas"][0], plan["clobbers"][3] or ["np", 4242])
+            import os as _os
+            envf = plan.get("env_change")
+            saved_env = {k_: _os.environ.get(k_) for k_ in (envf or {})}
+            if envf:
+                # the job is requeued / started by another launcher: inherited environment variables differ, the worker seeds do not
+                _os.environ.update({k_: str(v_) for k_, v_ in envf.items()})
+                out.count("fault:launcher_environment_differs_between_equal_worker_seeds")
+            try:
+                again = run_epoch(plan["betas"][0], plan["clobbers"][3] or ["np", 4242])
+            finally:
+                for k_, v_ in saved_env.items():
+                    if v_ is None:
+                        _os.environ.pop(k_, None)
+                    else:
+                        _os.environ[k_] = v_
         except Exception as e:
             from .simdata import InjectedReadError
             if stack.get("hook_fault") and (core.caused_by(e, InjectedReadError) or "injected: resource" in str(e)):
